@@ -44,4 +44,10 @@ func runC20(c *Ctx) {
 	// sibling calls of one callee agree on whether they pass the caller's parameter
 	c.runCallAgree("CALLAGREE", append(c.libPkgs()[3:4:4], c.fixturePkg("u")), nil)
 	c.floor("CALLAGREE", 10)
+	// every pixel exactly once: counters handed out atomically are zero-based positions
+	c.runTicket("TICKET", append(c.libPkgs()[3:4:4], c.fixturePkg("w")))
+	c.floor("TICKET", 0)
+	// objects leave the ray they are asked about alone
+	c.runQueryPurityFor(newEffEngine(c), c.libPkgs()[3:4], "Q.OBJ", map[string][]string{"render3d": {"Object"}})
+	c.floor("Q.OBJ", 10)
 }
